@@ -8,6 +8,9 @@
 #include "PsConfig.h"
 
 #include "line_util.h"
+#ifdef PSEUDOENGINE2_VERIF
+#include "verif.h"
+#endif
 #ifdef READLINE
 #include <readline/readline.h>
 #include <readline/history.h>
@@ -50,6 +53,9 @@ int main(int argc, char **argv) {
 #endif
 
     srand((unsigned int) time(NULL));
+#ifdef PSEUDOENGINE2_VERIF
+    PE2Verif::seedRandom();
+#endif
 
     return fn() ? EXIT_SUCCESS : EXIT_FAILURE;
 }
